@@ -84,4 +84,15 @@ def configGuard : List (List Bool) → Bool
   | [] => false
   | e :: es => if !configLoop false e then true else configGuard es
 
+/-- `Header.__make_shape`: the output's ranks are matched, in order, against the loop positions `pos, pos+1, ...` (`fuel` of them):
+    the scan takes the first position at which the pending rank is available (`ready r pos` = `LoopOrder.is_ready` of the rank's
+    final id) and moves on to the next rank AND the next position; what is left over when the positions run out -/
+def outScan (ready : String → Nat → Bool) : List String → Nat → Nat → List String
+  | [], _, _ => []
+  | r :: rs, _, 0 => r :: rs
+  | r :: rs, pos, fuel + 1 => if ready r pos then outScan ready rs (pos + 1) fuel else outScan ready (r :: rs) (pos + 1) fuel
+
+/-- rejected (the loop order projects into the output) iff some output rank is left without a position -/
+def outRankGuard (ready : String → Nat → Bool) (ranks : List String) (nloops : Nat) : Bool := !(outScan ready ranks 0 nloops).isEmpty
+
 end Legality
